@@ -87,7 +87,7 @@ pub fn run(cfg: &RunCfg) -> PartResult {
         let g = entry.ograph();
         // the identity is additive over vector components: the smallest accepted D is used
         let d = *entry.dims.iter().min().unwrap();
-        let nr = if g.num_loops() >= 3 { 2 } else { 4 };
+        let nr = if g.ne() >= 6 { 1 } else if g.num_loops() >= 3 { 2 } else { 4 };
         for (k, routing) in routings(&g, nr).into_iter().enumerate() {
             let offsets = k == 0;
             covered.push(json!({"graph": entry.name, "E": entry.ne(), "L": g.num_loops(), "D": d, "routing": routing.name, "loop_momentum_offsets": offsets}));
